@@ -3,6 +3,7 @@ from __future__ import annotations
 import json, math, os, subprocess, sys, warnings
 import numpy as np
 from .. import core, gen
+from . import c19_tas
 
 ID = 'C19'
 LEVEL = 'proof'
@@ -627,7 +628,7 @@ def _eval_integral(case):
 
 
 EVAL = dict(cooc=_eval_cooc, haralick=_eval_haralick, lbpmap=_eval_lbpmap, lbp=_eval_lbp, zernike=_eval_zernike,
-            moments=_eval_moments, integral=_eval_integral)
+            moments=_eval_moments, integral=_eval_integral, tas=c19_tas.eval_tas)
 
 
 def evaluate(cases):
@@ -771,12 +772,14 @@ def cases(rng, tier):
             lo, hi = gen.dt_range(dtype)
             data = [max(lo, min(hi, v)) for v in data]
         out.append(dict(kind='integral', shape=shape, dtype=dtype, data=data, out=outdt, layout=rng.choice(gen.LAYOUTS)))
+    # --- round 4: tas / pftas (own module; drawn last so that the earlier streams are unchanged)
+    out.extend(c19_tas.cases(rng, tier))
     return out
 
 
 def shrink(case):
     k = case.get('kind')
-    if k in ('cooc', 'haralick', 'moments', 'integral', 'lbp', 'zernike'):
+    if k in ('cooc', 'haralick', 'moments', 'integral', 'lbp', 'zernike', 'tas'):
         shape, data = case['shape'], case['data']
         A = np.array(data, dtype=object).reshape(shape)
         for ax in range(len(shape)):
